@@ -131,3 +131,6 @@ def _c20_race_scenarios(tier, seed, work, sh):
     return res
 
 PROPS["C20"]["extra"] = [("race_scenarios", _c20_race_scenarios)]
+
+PROPS["C13"]["kinds"] = ["lmtp", "c13x"]
+PROPS["C17"]["kinds"] = ["reply", "c17conv"]
